@@ -963,6 +963,9 @@ def c14():
     for kname in ["K1", "K1b", "K3"]:
         for i in range(half(4, 40)):
             progs.append(gen.crash_reuse_program(rng, "crash-reuse-%s-%d" % (kname, i), gen.K(kname), CS[kname]))
+    # every device call of a multi-cluster write interrupted once (quick: two configurations)
+    for kname in (["K1b", "K5"] if core.tier() == "quick" else ["K1b", "K2", "K3", "K5"]):
+        progs += gen.intr_write_programs("intr-write-%s" % kname, gen.K(kname), CS[kname])
     # one crash program in four runs on a storage that transfers fewer bytes than asked (legal for Write: every piece must be handed over)
     for j, p in enumerate(progs):
         if j % 4 == 1 and "short" not in p["cfg"]:
@@ -970,6 +973,7 @@ def c14():
     res = [("crash", core.campaign("crash", progs, wd))]
     # the same kind of histories with the device handed to the library as a std::io object behind StdIoWrapper (what most users do)
     std = [gen.crash_program(rng, "crash-std-%s-%d" % (k, i), gen.K(k), CS[k]) for k in ("K1b", "K5") for i in range(half(10, 100))]
+    std += gen.intr_write_programs("intr-write-std-K1b", gen.K("K1b"), CS["K1b"])
     res.append(("crash-stdio", core.campaign("crash-stdio", std, wd, feat="refstd")))
     core.finish("C14", "fault_enumeration", res, mc_durable(wd), t0,
                 "histories with flush/close points followed by unrelated activity; for every prefix of the device write log after the first flush the "
